@@ -207,14 +207,14 @@ func (tw *TimingWheel) moveTask(task baseEntry) {
 		return
 	}
 
-	pos, circle := tw.getPositionAndCircle(task.delay)
-	if pos >= timer.pos {
-		timer.item.circle = circle
-		timer.item.diff = pos - timer.pos
-	} else if circle > 0 {
-		circle--
-		timer.item.circle = circle
-		timer.item.diff = tw.numSlots + pos - timer.pos
+	pos, _ := tw.getPositionAndCircle(task.delay)
+	steps := int(task.delay / tw.interval)
+	// ticks until the slot currently holding the timer is scanned again
+	dist := (timer.pos-tw.tickedPos+tw.numSlots-1)%tw.numSlots + 1
+	if steps >= dist {
+		// lazy move: wait in the current slot, then hop the remaining ticks when it is scanned
+		timer.item.circle = (steps - dist) / tw.numSlots
+		timer.item.diff = (steps - dist) % tw.numSlots
 	} else {
 		timer.item.removed = true
 		newItem := &timingEntry{
